@@ -217,7 +217,7 @@ __CPROVER_requires(OPT_RANGE_output_tab_size && OPT_RANGE_indent_with_tabs && OP
 __CPROVER_ensures(CPD(did_newline) == __CPROVER_old(CPD(did_newline))) \
 __CPROVER_ensures(CPD(last_char) == ' ' || CPD(last_char) == '\t') \
 __CPROVER_ensures(g_chs_n + CPD(spaces) <= __CPROVER_old(g_chs_n) + __CPROVER_old(CPD(spaces)) + (CPD(column) - __CPROVER_old(CPD(column)))) \
-__CPROVER_ensures(g_chs_n >= __CPROVER_old(g_chs_n))
+__CPROVER_ensures(g_chs_n >= __CPROVER_old(g_chs_n) && g_chs_n - __CPROVER_old(g_chs_n) <= __CPROVER_old(CPD(spaces)) + (CPD(column) - __CPROVER_old(CPD(column))))
 
 void add_text_ascii_contract(const char *t)
 __CPROVER_requires(__CPROVER_is_fresh(t, 2) && (t[0] == ' ' || t[0] == '\t') && t[1] == 0)
@@ -237,17 +237,15 @@ __CPROVER_requires(CPD(column) >= 1 && CPD(column) < (1UL << 30) && column < (1U
 /* UINT16 cpd.spaces: the pending blanks of one line stay below 65000 */
 __CPROVER_requires(CPD(spaces) + (column > CPD(column) ? column - CPD(column) : 0) < 60000)
 __CPROVER_assigns(AC_FRAME, CHS_FRAME, CPD(spaces), CPD(column), CPD(last_char), CPD(did_newline))
-/* columns never move left, and the requested column is reached [C02-K4]; without tabs it is reached exactly
- * (with tabs exactness additionally needs "the tab written lands on the stop computed before", i.e. the
- * functional identity of two next_tab_column() results, which is not carried through the loop invariant) */
-__CPROVER_ensures(CPD(column) >= __CPROVER_old(CPD(column)) && CPD(column) >= column)
-__CPROVER_ensures(!allow_tabs ==> CPD(column) == (__CPROVER_old(CPD(column)) > column ? __CPROVER_old(CPD(column)) : column))
+/* columns never move left, and the requested column is reached exactly [C02-K4] (with tabs: the tab written lands
+ * on the stop computed before, next_column == NTC(cpd.column), carried through the loop invariant) */
+__CPROVER_ensures(CPD(column) == (__CPROVER_old(CPD(column)) > column ? __CPROVER_old(CPD(column)) : column))
 __CPROVER_ensures(CPD(did_newline) == 0)
 /* every add_char call made is a blank or a tab, never literal; tabs only when allowed [C17-K3] */
 __CPROVER_ensures((g_ac_K >= __CPROVER_old(g_ac_n) && g_ac_K < g_ac_n) ==> ((g_ac_ch_at_K == ' ' || (allow_tabs && g_ac_ch_at_K == '\t')) && !g_ac_lit_at_K))
 /* tabs first, then blanks: no tab follows a blank within this call */
-__CPROVER_ensures(!__CPROVER_old(g_ac_seen_blank) ==> !g_ac_tab_after_blank)
-__CPROVER_ensures(!allow_tabs ==> g_ac_tab_after_blank == __CPROVER_old(g_ac_tab_after_blank))
+__CPROVER_ensures(!__CPROVER_old(g_ac_seen_blank) ==> !g_ac_tab_after_blank == !__CPROVER_old(g_ac_tab_after_blank))
+__CPROVER_ensures(!allow_tabs ==> !g_ac_tab_after_blank == !__CPROVER_old(g_ac_tab_after_blank))
 ;
 
 /* ---- cmt_output_indent(brace_col, base_col, column) ---- */
@@ -262,5 +260,5 @@ __CPROVER_ensures(CPD(did_newline) == 0)
 __CPROVER_ensures((g_ac_K >= __CPROVER_old(g_ac_n) && g_ac_K < g_ac_n) ==> ((g_ac_ch_at_K == ' ' || g_ac_ch_at_K == '\t') && !g_ac_lit_at_K))
 /* with both tab options off no tab is produced at all [C17-K4] */
 __CPROVER_ensures((!optv_indent_cmt_with_tabs && optv_indent_with_tabs == 0 && g_ac_K >= __CPROVER_old(g_ac_n) && g_ac_K < g_ac_n) ==> g_ac_ch_at_K == ' ')
-__CPROVER_ensures(!__CPROVER_old(g_ac_seen_blank) ==> !g_ac_tab_after_blank)
+__CPROVER_ensures(!__CPROVER_old(g_ac_seen_blank) ==> !g_ac_tab_after_blank == !__CPROVER_old(g_ac_tab_after_blank))
 ;
